@@ -7,8 +7,13 @@ import sys
 sys.path.insert(0, os.path.dirname(os.path.dirname(os.path.abspath(__file__))))
 os.environ['VERIF_NO_NORMALISE'] = '1'
 from sa.core import Repo          # noqa: E402
-from sa import alphanorm          # noqa: E402
-ref = alphanorm.build_reference(Repo())
+from sa import alphanorm, canon   # noqa: E402
+repo = Repo()
+ref = alphanorm.build_reference(repo)
 with open(alphanorm.REF_PATH, 'w') as f:
     json.dump(ref, f)
 print('reference shapes for %d functions written to %s (%d bytes)' % (len(ref), alphanorm.REF_PATH, os.path.getsize(alphanorm.REF_PATH)))
+cref = canon.build_reference(repo)
+with open(canon.REF_PATH, 'w') as f:
+    json.dump(cref, f)
+print('reference spellings for %d functions written to %s (%d bytes)' % (len(cref), canon.REF_PATH, os.path.getsize(canon.REF_PATH)))
